@@ -75,16 +75,31 @@ def layouts(ctx):
     out.append(("same-id-two-files", {"customer.json": CU, "invoice.json": IN, "order.json": OR},
                 {"http://x/crm": ("example.com/crm", "crm/gen.go"), "http://x/orders": ("example.com/orders", "orders/gen.go")}, [["customer.json", "invoice.json", "order.json"]], None))
     out.append(("same-id-two-files-pair", {"customer.json": CU, "invoice.json": IN}, {"http://x/crm": ("example.com/crm", "crm/gen.go")}, [["customer.json", "invoice.json"]], None))
+    # two files of one directory that differ only in their extension, and dotted stems reached through extension-less references
+    IJ = {"$id": "http://x/ij", "type": "object", "properties": {"sku": {"type": "string"}}}
+    IY = {"$id": "http://x/iy", "type": "object", "properties": {"qty": {"type": "integer"}}}
+    out.append(("same-stem-two-extensions", {"item.json": IJ, "item.yaml": IY},
+                {"http://x/ij": ("example.com/ij", "ij/gen.go"), "http://x/iy": ("example.com/iy", "iy/gen.go")}, [["item.json", "item.yaml"]], None))
+    T1 = {"$id": "http://x/t1", "type": "object", "$defs": {"Thing": {"type": "object", "properties": {"a": {"type": "string"}}}}, "properties": {"t": {"$ref": "#/$defs/Thing"}}}
+    T2 = {"$id": "http://x/t2", "type": "object", "$defs": {"Other": {"type": "object", "properties": {"b": {"type": "integer"}}}}, "properties": {"o": {"$ref": "#/$defs/Other"}}}
+    U = {"$id": "http://x/u", "type": "object", "properties": {"one": {"$ref": "types.v1#/$defs/Thing"}, "two": {"$ref": "types.v2#/$defs/Other"}}}
+    out.append(("dotted-stems-extensionless", {"u.json": U, "types.v1.json": T1, "types.v2.json": T2},
+                {"http://x/u": ("example.com/u", "u/gen.go"), "http://x/t1": ("example.com/t1", "t1/gen.go"), "http://x/t2": ("example.com/t2", "t2/gen.go")},
+                [["u.json"]], None))
     return out
 
 
 def root_type_name(path):
-    stem, _, ext = os.path.basename(path).rpartition(".")
-    return stem[:1].upper() + stem[1:] + ext[:1].upper() + ext[1:]
+    """the root type name the CLI derives from the file name under --resolve-extension .json (argv_for): .json is stripped, other extensions stay"""
+    import re as _re
+    base = os.path.basename(path)
+    if base.endswith(".json"):
+        base = base[:-5]
+    return "".join(w[:1].upper() + w[1:] for w in _re.split(r"[^A-Za-z0-9]+", base) if w)
 
 
 def argv_for(maps, args):
-    argv = ["-p", "example.com/dflt", "-o", "dflt/gen.go"]
+    argv = ["-p", "example.com/dflt", "-o", "dflt/gen.go", "--resolve-extension", ".json", "--yaml-extension", ".yaml"]
     for i, (pk, outp) in maps.items():
         argv += ["--schema-package", "%s=%s" % (i, pk), "--schema-output", "%s=%s" % (i, "out/" + outp)]
     argv[3] = "out/dflt/gen.go"
